@@ -784,11 +784,17 @@ func runScenario(t *testing.T, sc scenario) (obs observed, fails []failure) {
 		synctest.Wait()
 
 		// teardown: let every held reader go, then stop the agent's components
+		// (every reader gets an error, every hanging write / slow Close returns: also the loops of a
+		// connection that a broken manager no longer knows must end, or Stop would wait for ever)
 		cmu.Lock()
 		for _, c := range conns {
+			c.ReleaseClose()
+			c.S.ReleaseWrites(true)
 			c.S.Release()
+			c.S.FailRead()
 		}
 		cmu.Unlock()
+		synctest.Wait()
 		ag.Stop()
 		cmu.Lock()
 		for _, pc := range pconn {
